@@ -13,7 +13,8 @@ RULE = ("op histories (candidate list, cap) against prior_combinations_sample wi
         "non-trivial = some cap strictly between 0 and the number of candidates; distinct = distinct canonical histories")
 THEOREMS = ["C07_step_valid", "C07_checker_sound", "C07_subset", "C07_exact", "C07_least_first", "C07_fair",
             "C07_fair_interleaved", "C07_shared_counter_refuted",
-            "C07_counts_are_selections", "C07_model_fair", "C07_checked_history_fair"]
+            "C07_counts_are_selections", "C07_model_fair", "C07_checked_history_fair",
+            "C07_selection_history_fair", "C07_report_sound"]
 NAMES = ["a", "b", "f1", "f2", "label", "x AND y", "u", "v9", "é", "", "0", "1", "f AND_REL g"]
 
 
@@ -112,6 +113,98 @@ def gen_pipe_case(rng):
         case["reference"] = ref
         case["caps"] = [rng.randint(1, 4) for _ in range(rng.randint(2, 8))]
     return case
+
+
+def gen_feat_case(rng):
+    """The interaction-feature call site (compute_combined_features) over batches with the same columns."""
+    nf = rng.randint(3, 6)
+    feats = rng.sample(["f%d" % i for i in range(12)] + ["é", "a b", "x-y", "n0"], nf)
+    cols = list(feats)
+    cols.insert(rng.randint(0, nf), "label")
+    sites = rng.choice([["and"], ["and"], ["rel"], ["and", "rel"]])
+    order = rng.choice([2, 2, 3]) if nf > 3 else 2
+    ncand = max(len(list(itertools.combinations(feats, order))), len(list(itertools.combinations(feats, 2))))
+    nb = rng.randint(3, 9)
+    if rng.random() < 0.5:
+        caps = [rng.randint(1, max(1, ncand - 1))] * nb
+    else:
+        caps = [rng.randint(0, ncand + 1) for _ in range(nb)]
+    return {"kind": "feat", "columns": cols, "label": "label", "order": order, "sites": sites,
+            "heuristic": "MI-numba-3mr" if "rel" in sites else rng.choice(["MI-numba-randomized", "Constant", "AMI"]),
+            "caps": caps, "nrows": 6, "seed": rng.randint(0, 10 ** 6), "interleave_pairs": rng.random() < 0.4}
+
+
+def feat_exprs(case, res):
+    """One Coq expression per call site: every batch's selection (read off the appended columns) judged against the counts
+    the selections themselves imply."""
+    feats = [c for c in case["columns"] if c != case["label"]]
+    out = []
+    for site in case["sites"]:
+        join = " AND_REL " if site == "rel" else " AND "
+        cands = list(itertools.combinations(feats, 2 if site == "rel" else case["order"]))
+        ids = {t: i for i, t in enumerate(cands)}
+        sels, caps = [], []
+        for b in res["obs"]:
+            sel = []
+            for name in b[site]["new"]:
+                t = tuple(name.split(join))
+                if t not in ids:
+                    ids[t] = len(ids)
+                sel.append(ids[t])
+            sels.append(sel)
+            caps.append(b[site]["cap_after"])
+        L = vlib.nlist(range(len(cands)))
+        out.append((site, "let L := %s%%nat in let ops := map (fun c => (L, c)) %s in let sels := [%s]%%nat in "
+                    "let obs := derived_obs [] sels in (steps_ok [] ops obs, Nat.eqb (length obs) (length ops), "
+                    "fairb L (last (map snd obs) []))" % (L, vlib.zlist(caps), "; ".join(vlib.nlist(x) for x in sels)),
+                    len(cands)))
+    return out
+
+
+def gen_stream_case(rng):
+    """The real ranking task on a small file: per-batch evaluated pairs against combination_estimation_counts.json."""
+    nf = rng.randint(3, 5)
+    B = rng.randint(5, 8)
+    return {"kind": "stream", "cols": ["f%d" % i for i in range(1, nf + 1)] + ["label"], "B": B,
+            "nrows": B * rng.randint(3, 8), "cap": rng.randint(2, 6), "order": rng.choice([1, 2, 2, 3]),
+            # (3mr heuristics are left to the pipe/feat families: with a binding cap the 3MR post-processing of the task has
+            # no relevance scores to work with, which is outside this property)
+            "heuristic": rng.choice(["Constant", "MI-numba-randomized"]),
+            "tro": rng.choice(["False", "False", "True"]), "seed": rng.randint(0, 10 ** 6)}
+
+
+def stream_expr(case, res):
+    import ast
+    per_eval = 1 if case["heuristic"] == "Constant" else 2
+    ids = {}
+
+    def kid(u):
+        if u not in ids:
+            ids[u] = len(ids)
+        return ids[u]
+    sels = []
+    for b in res["batches"]:
+        cnt = {}
+        for a, c in b:
+            cnt[frozenset((a, c))] = cnt.get(frozenset((a, c)), 0) + 1
+        sel = []
+        for u, n in cnt.items():
+            if n % per_eval:
+                return None, "rows of pair %s do not come in both orientations" % sorted(u)
+            sel += [kid(u)] * (n // per_eval)
+        sels.append(sel)
+    rep = {}
+    for k, v in res["report"].items():
+        try:
+            t = ast.literal_eval(k)
+            u = frozenset(t)
+        except Exception:
+            return None, "report key %r is not a combination" % (k,)
+        rep[kid(u)] = rep.get(kid(u), 0) + int(v)
+    return ("reportb [%s]%%nat [%s]%%nat" % ("; ".join(vlib.nlist(x) for x in sels),
+                                             "; ".join("(%d, %d)" % kv for kv in sorted(rep.items()))),
+            {"selected_per_pair": {",".join(sorted(u)): sum(s.count(i) for s in sels) for u, i in ids.items()},
+             "reported": res["report"]}), None
 
 
 def pipe_encode(case, res):
@@ -234,10 +327,21 @@ def check(run, replay):
         pipe_cases = []
     else:
         pipe_cases = [gen_pipe_case(run.rng) for _ in range(60 if run.tier == "quick" else 400)]
+    rk = replay["case"].get("kind") if replay is not None else None
+    if replay is None:
+        feat_cases = [gen_feat_case(run.rng) for _ in range(40 if run.tier == "quick" else 300)]
+        stream_cases = [gen_stream_case(run.rng) for _ in range(12 if run.tier == "quick" else 80)]
+    else:
+        feat_cases = [replay["case"]] if rk == "feat" else []
+        stream_cases = [replay["case"]] if rk == "stream" else []
+        if rk in ("feat", "stream"):
+            cases, pipe_cases = [], []
     bigs = big_cases(run.rng, run.tier) if replay is None else ([replay["case"]] if replay["case"].get("kind") == "big" else [])
     if replay is not None and replay["case"].get("kind") == "big":
         cases = []
-    both = vlib.run_impl("impl_c07.py", {"cases": cases, "pipe_cases": pipe_cases, "big_cases": bigs})
+    both = vlib.run_impl("impl_c07.py", {"cases": cases, "pipe_cases": pipe_cases, "big_cases": bigs, "feat_cases": feat_cases,
+                                         "stream_cases": stream_cases,
+                                         "root": os.path.join(vlib.CACHE, "c07_stream_%d" % os.getpid())})
     res = both["results"]
 
     header = ("From Coq Require Import List ZArith.\nFrom Outrank Require Import Pipeline.Sampler.\n"
@@ -290,6 +394,59 @@ def check(run, replay):
             c["caps"] = c["caps"][:k + 1]
             run.violation("counterexample", "C07_checker (valid_stepb) on mixed_rank_graph batches",
                           case=c, impl=both["pipe"][i]["obs"][k], clause="valid_step fails at batch %d: evaluated pairs / counter" % k)
+    # the interaction-feature call site, judged by its own selections (derived_obs)
+    fexprs, fidx = [], []
+    for i, (c, r) in enumerate(zip(feat_cases, both.get("feat", []))):
+        run.count_case(c, True)
+        if not r["ok"]:
+            run.violation("counterexample", "impl-raises (compute_combined_features)", case=c, impl=r.get("tb", r["error"]),
+                          clause="call terminates normally")
+            continue
+        for site, e, ncand in feat_exprs(c, r):
+            fexprs.append(e)
+            fidx.append((i, site, ncand))
+    fvals = vlib.coq_eval("C07f", header, fexprs, shard=300) if fexprs else []
+    nfeat_bad = 0
+    for (i, site, ncand), (steps, lenok, fair) in zip(fidx, fvals):
+        if lenok and all(steps) and fair:
+            continue
+        nfeat_bad += 1
+        c = dict(feat_cases[i])
+        k = steps.index(False) if False in steps else len(c["caps"]) - 1
+        c["caps"] = c["caps"][:k + 1]
+        c["sites"] = [site]
+        run.violation("counterexample", "C07_selection_history_fair (valid_runb on derived_obs) at the interaction-feature call site",
+                      case=c, impl=[b[site]["new"] for b in both["feat"][i]["obs"][:k + 1]],
+                      clause=("batch %d of the %r feature space (%d candidates): the combinations built are not the least-selected "
+                              "ones given the selections of the earlier batches / not len(candidates[:cap]) many" % (k, site, ncand))
+                      if False in steps or not lenok else "numbers of selections differ by more than one after the history")
+    run.oblige("correspondence:interaction-feature call site, every batch valid against its own selection history", nfeat_bad == 0)
+    run.cov["feature_space_histories_checked"] = len(fidx)
+    # the reported table of the real ranking task against the pairs evaluated per batch
+    sexprs, sidx, sinfo = [], [], []
+    for i, (c, r) in enumerate(zip(stream_cases, both.get("stream", []))):
+        run.count_case(c, True)
+        if not r["ok"]:
+            run.violation("counterexample", "impl-raises (ranking task)", case=c, impl=r.get("tb", r["error"]),
+                          clause="the ranking task terminates normally and writes combination_estimation_counts.json")
+            continue
+        ei, err = stream_expr(c, r)
+        if err:
+            run.violation("counterexample", "evaluated pairs / report readable", case=c, impl=err, clause=err)
+            continue
+        sexprs.append(ei[0])
+        sidx.append(i)
+        sinfo.append(ei[1])
+    svals = vlib.coq_eval("C07s", header, sexprs, shard=300) if sexprs else []
+    nrep_bad = 0
+    for i, ok, info in zip(sidx, svals, sinfo):
+        if not ok:
+            nrep_bad += 1
+            run.violation("counterexample", "C07_report_sound (reportb) on combination_estimation_counts.json", case=stream_cases[i],
+                          impl=info, clause="reported per-combination evaluation counts equal the number of batches in which each "
+                          "one was actually selected")
+    run.oblige("correspondence:reported counts of the ranking task = evaluated pairs per batch", nrep_bad == 0)
+    run.cov["ranking_task_reports_checked"] = len(sidx)
     # scale families, judged by the Python mirror of the checker
     nbig = 0
     for c, r in zip(bigs, both.get("big", [])):
